@@ -21,10 +21,10 @@ META = {
         'isfinite scrub of (newflux, newivar) follows every spline/interpolation write to them and afterwards flux is only '
         'rewritten by aesthetics(); the no-good-pixel exit returns the zero-initialised arrays; C11.PER-EXPOSURE - the output '
         'pixels that receive inverse variance from exposure j are those between that exposure\'s own minimum and maximum '
-        'wavelength; C11.ZSHIFT - in preprocess_spectra the wavelength argument of combine1fiber is rowloglam - logshift[iobj] '
+        'wavelength; C11.SCALE-FREE - no decision inside combine1fiber compares a flux-scaled quantity with an absolute tolerance or identifies two grids by a tolerance test, and the inverse-variance interpolation runs for every overlapping exposure; C11.ZSHIFT - in preprocess_spectra the wavelength argument of combine1fiber is rowloglam - logshift[iobj] '
         'with logshift = log10(1 + zfit), computed afresh for every object (no in-place accumulation). NOT decided: ivar >= 0, '
         'exact zeros outside good neighbours, identity on the same grid, scaling laws, interpolation bound (numerical).'),
-    'floors': {'C11.DTYPE-MIX': 5, 'C11.EMPTY-AGG': 6, 'C11.SCRUB': 4, 'C11.PER-EXPOSURE': 1, 'C11.ZSHIFT': 2},
+    'floors': {'C11.DTYPE-MIX': 5, 'C11.EMPTY-AGG': 6, 'C11.SCRUB': 4, 'C11.PER-EXPOSURE': 1, 'C11.ZSHIFT': 2, 'C11.SCALE-FREE': 4},
     'trusted_base': ['NumPy 2 (NEP 50): a signed integer array and a numpy.uint64 scalar have no common integer type for bitwise ufuncs'],
 }
 
@@ -321,7 +321,35 @@ def check_zshift(ctx, repo):
               msg='logshift is defined as %s' % forms, construct='logshift definition')
 
 
+def check_scale_free(ctx, repo):
+    """Decisions inside combine1fiber must not compare data-scaled quantities with absolute tolerances, nor treat two wavelength grids
+    as identical by a tolerance test (flux scaling c, ivar scaling 1/c^2 and sub-pixel shifts are in the property's domain)."""
+    f = repo.func(SPEC2D, 'combine1fiber')
+    fa = FA(f)
+    tests = [c for c in walk_local(f.node) if isinstance(c, ast.Compare) and 'sset.coeff' in src(c)]
+    ctx.need(tests, 'combine1fiber: failed-fit test on the spline coefficients not found')
+    for c in tests:
+        ok = isinstance(c.ops[0], ast.Eq) and try_fold(c.comparators[0]) == 0
+        ctx.check('C11.SCALE-FREE', ok, f, c, 'a failed spline fit is recognised by coefficients that are exactly zero (`%s`)' % src(c)[:60],
+                  msg='the failed-fit test `%s` compares a flux-scaled quantity with an absolute tolerance: spectra in small flux units (1e-17) are treated '
+                      'as failed fits and lose all inverse variance' % src(c)[:70], construct='absolute tolerance on coefficients: ' + src(c)[:70])
+    close = [c for c in walk_local(f.node) if isinstance(c, ast.Call) and call_name(c) in ('allclose', 'isclose', 'array_equal', 'array_equiv')
+             and any('loglam' in src(a) for a in c.args)]
+    ctx.check('C11.SCALE-FREE', not close, f, close[0] if close else f.node, 'no tolerance-based "same grid" shortcut bypasses the resampling',
+              msg='`%s` decides that input and output grids coincide within a tolerance (default rtol is about a third of a pixel at log-lambda 3.6) and skips '
+                  'the interpolation and mask growth' % (src(close[0])[:70] if close else ''), construct='grid identity shortcut')
+    # the ivar interpolation statements sit only under the per-exposure emptiness tests
+    interp = [st for st in walk_local(f.node) if isinstance(st, ast.Assign) and src(st.targets[0]) in ('result', 'smask') and 'interp' in src(st.value)]
+    ctx.need(len(interp) == 2, 'combine1fiber: inverse-variance interpolation statements not found')
+    for st in interp:
+        conds = [src(a.test) for a in ancestors(st) if isinstance(a, ast.If)]
+        extra = [c for c in conds if c not in ('these.any()', 'inbetween.any()', 'ngood == 0')]
+        ctx.check('C11.SCALE-FREE', not extra, f, st, '`%s = np.interp(...)` is computed for every exposure that overlaps the output grid' % src(st.targets[0]),
+                  msg='the inverse-variance interpolation is skipped under `%s`' % extra, construct='conditional ivar interpolation %s' % extra)
+
+
 def run(ctx):
+    check_scale_free(ctx, ctx.repo)
     n = check_dtype_mix(ctx, ctx.repo)
     ctx.need(n >= 5, 'combine1fiber: fewer typed bitwise sites than confirmed by hand')
     check_empty_agg(ctx, ctx.repo)
